@@ -34,7 +34,7 @@ ASSUMPTIONS = ['emission of the enum (backends/rust.rs build_enum: `Name = <v> a
 
 
 def bounds(tier):
-    return {'variants': '<= 3 (quick), <= 5 (thorough); the statement\'s 32 is outside the bound', 'values': 'full isize range (symbolic)',
+    return {'variants': '<= 3 (quick), <= 4 (thorough); the statement\'s 32 is outside the bound', 'values': 'full isize range (symbolic)',
             'bases': [b[0] for b in BASES], 'pointer_size': [4, 8]}
 
 
@@ -50,10 +50,11 @@ def assume(a, n, ps):
 
 def slices(tier, rng):
     out = []
-    nmax = 3 if tier == 'quick' else 5
+    nmax = 3 if tier == 'quick' else 4
     for ps in (4, 8):
         for n in range(1, nmax + 1):
             if ps == 8 and n < nmax and tier == 'quick': continue
+            if ps == 8 and n == 4: continue
             out.append(Slice('n%d-ps%d' % (n, ps), 't_enum', 8 + 3 * n, lambda a, n=n, ps=ps: assume(a, n, ps),
                              opts={'must_reach': ['ok', 'err']}, ctx={'n': n}))
     return out
